@@ -235,13 +235,14 @@ def run_harnesses(scratch, config, names, jobs, timeout_s, per_harness_timeout="
     return results, out, " ".join(shlex.quote(c) for c in cmd), data
 
 
-def playback(scratch, config, full_name, module_file):
+def playback(scratch, config, full_name, module_file, cbmc_args=None):
     """Re-run one failing harness with concrete playback, append the generated unit test to the harness
     module of the scratch copy and execute it natively (cargo kani playback --lib): the real functions of
     /repo run on the counterexample values and the harness' own assertions are evaluated by rustc-compiled code."""
     short = full_name.split("::")[-1]
     cmd = kani_cmd(config, ["--output-format", "terse", "--exact", "--harness", full_name,
-                            "-Z", "concrete-playback", "--concrete-playback=print"])
+                            "-Z", "concrete-playback", "--concrete-playback=print"] +
+                   (["--cbmc-args"] + cbmc_args.split() if cbmc_args else []))
     rc, out, _ = run(cmd, cwd=scratch, timeout=1800)
     blocks = [b for b in re.findall(r"```\n(.*?)```", out, re.S) if "kani_concrete_playback_" in b]
     if not blocks:
